@@ -25,8 +25,11 @@ type qqConn struct {
 	written [][]byte
 }
 
-func (c *qqConn) Read(b []byte) (int, error)         { return 0, nil }
-func (c *qqConn) Write(b []byte) (int, error)        { c.written = append(c.written, append([]byte{}, b...)); return len(b), nil }
+func (c *qqConn) Read(b []byte) (int, error) { return 0, nil }
+func (c *qqConn) Write(b []byte) (int, error) {
+	c.written = append(c.written, append([]byte{}, b...))
+	return len(b), nil
+}
 func (c *qqConn) Close() error                       { return nil }
 func (c *qqConn) LocalAddr() net.Addr                { return qqAddr("127.0.0.1:1") }
 func (c *qqConn) RemoteAddr() net.Addr               { return c.addr }
